@@ -32,7 +32,7 @@ LEVEL = "proof"
 TECHNIQUE = ("Lean 4 proofs over tables regenerated from the source (exception hierarchy / throw sites / catch chains; buffer sizes and guards) "
              "and over hand models of the fixed-buffer loops, + injection/number correspondence and sanitizer-backed malformed-input search "
              "against the working-tree library")
-LEVEL_TEXT = ("Partial machine-checked proof (29 theorems, Props/C03.lean). Proved for all inputs: (a) error mapping over the regenerated class table and catch "
+LEVEL_TEXT = ("Partial machine-checked proof (34 theorems, Props/C03.lean). Proved for all inputs: (a) error mapping over the regenerated class table and catch "
               "chains: C++ handler dispatch is first-match; each of compileStylesheet/parseSource/doTransform ends in catch(...) with non-zero statuses, so whatever is "
               "thrown the method returns a status (every_exception_caught); for the four library exception families with a non-empty text, and for bad_alloc / Xerces "
               "OutOfMemoryException / DOMException / std::exception always, the message is non-empty; no typed handler is dead; every exported int C function reaches only "
@@ -40,10 +40,13 @@ LEVEL_TEXT = ("Partial machine-checked proof (29 theorems, Props/C03.lean). Prov
               "re-read from the source: int2alphaCount, ScalarToDecimalString (also functional correctness), the sprintf path of NumberToDOMString/NumberToCharacters for every "
               "finite double (two-sided in the buffer size), three length-guarded stack arrays, findTemplate's conflictsArray/conflictsVector, the transcode grow-and-retry loop "
               "(with and without its no-progress guard), xsl:number's backwards walk, the XPath tokenizer's scans, and definedness of two double->integer conversions (two-sided in "
-              "their range guards). The memory-safety / UB / leak / hang part of the property for all other code is searched, not proved: malformed and adversarial stylesheets, "
+              "their range guards); (c) the stylesheet handler's decision tables, regenerated: no element token falls through, and with-param / sort / when / otherwise are refused outside "
+              "the parents the XSLT content model names; (d) the recursion guard of lazily evaluated top-level variables: for every dependency graph the evaluation ends in a value or a "
+              "circular-definition error within N+1 nested evaluations (whole-stack search, as the regenerated flag confirms). The memory-safety / UB / leak / hang part of the property for all other code is searched, not proved: malformed and adversarial stylesheets, "
               "sources, XPath strings, parameters and URLs through every entry point (sanitizer build in the thorough tier), each followed by a known-good transformation, plus "
               "re-use of one compiled stylesheet after an aborted run, more decimal-formats than the formatter cache holds, buffer-boundary outputs, failing imports and a "
-              "template-recursion depth ramp including recursion without end.")
+              "template-recursion depth ramp including recursion without end, the complete (parent, child, attribute-variant) matrix of XSLT elements, and error-path families (failing modules at import/include depth 1..3, failing document() loads, "
+              "extension elements, reference cycles of length 1..5) on a counting memory manager that must show no outstanding block after the transformer is destroyed.")
 LEVEL_NOTE = ("Trusted: Lean kernel (leanchecker in the thorough tier); axioms propext/Classical.choice/Quot.sound only; translate/c03_exceptions.py, c03_buffers.py (regex readers of the "
               "C++ source and the Xerces headers) and c03_inventory.py (clang-14 typed AST); the hand transcriptions in lean/XalanModel/C03/*.lean (int2alphaCount, "
               "ScalarToDecimalString and the number path are validated by the correspondence run; the conflicts, transcode, getPreviousNode and tokenizer models are tied by shape "
@@ -87,6 +90,11 @@ THEOREMS = [P + n for n in (
     "getPreviousNode_terminates",
     "tokenize_terminates",
     "float_casts_defined_iff_guarded",
+    "structure_no_fall_through",
+    "context_dependent_children_rejected_elsewhere",
+    "guard_stack_every_cycle_detected",
+    "guard_stack_reports_first_repetition",
+    "guard_top_only_counterexample",
 )]
 
 INJECT_CLASSES = ["XSLException", "XalanXPathException", "XPathParserException", "XSLTProcessorException", "ElemMessageTerminateException",
@@ -375,6 +383,7 @@ def run(ctx):
     ok1, _ = ctx.translate("c03_exceptions")
     ok2, _ = ctx.translate("c03_buffers")
     ctx.translate("c03_inventory")
+    ctx.translate("c03_structure")
     ctx.lean("XalanModel.Props.C03", THEOREMS, extra_targets=["xm_c03"])
     model = ctx.exe("xm_c03")
     harness = common.build_harness("c03_fuzz", ["c03_fuzz.cpp"], flavor=flavor, sanitize=(flavor == "asan"))
@@ -587,6 +596,16 @@ def run(ctx):
                 t = "a" * off + ch + "z" * (512 - nb - 5) + "a" * 5 + ch + "end"
                 glines.append("xf %s %s" % (hx(ust), hx("<r>" + t + "</r>")))
                 gexp.append(t if method == "text" else "<o>" + t + "</o>")
+    # xsl:fallback in an unknown extension element: a directly executed named template, and variables (frames must be popped)
+    fb_ns = " xmlns:ext='urn:ext' extension-element-prefixes='ext'"
+    glines.append("xf %s %s" % (hx(c03_gen.sty("<xsl:template match='/'><o><ext:unknown><xsl:fallback><xsl:call-template name='t'/></xsl:fallback></ext:unknown>"
+                                               "<xsl:call-template name='t'/></o></xsl:template><xsl:template name='t'>T</xsl:template><xsl:template match='i'>WRONG</xsl:template>",
+                                               extra_attrs=fb_ns)), hx("<r><i>1</i><i>2</i></r>")))
+    gexp.append('<?xml version="1.0" encoding="UTF-8"?><o>TT</o>')
+    glines.append("xf %s %s" % (hx(c03_gen.sty("<xsl:template match='/'><o><xsl:for-each select='r/i'><ext:unknown><xsl:fallback><xsl:variable name='v' select='.'/>"
+                                               "<xsl:value-of select='$v'/></xsl:fallback></ext:unknown></xsl:for-each><xsl:call-template name='t'/></o></xsl:template>"
+                                               "<xsl:template name='t'><xsl:param name='q' select='7'/><xsl:value-of select='$q'/></xsl:template>", extra_attrs=fb_ns)), hx("<r><i>1</i><i>2</i></r>")))
+    gexp.append('<?xml version="1.0" encoding="UTF-8"?><o>127</o>')
     # an imported / included module that fails to compile (files next to the check's work directory; leaks show in the thorough tier)
     impdir = os.path.join(work, "c03_import")
     os.makedirs(impdir, exist_ok=True)
@@ -799,6 +818,111 @@ def run(ctx):
         if d.get("esc", "none") != "none" or d.get("rc") == "0" or int(d.get("msg", "0")) == 0 or d.get("fu") != "1":
             ctx.fail("recursion.bad-report[%s]" % k, "template recursion without an end must end in a non-zero status with a message and a usable transformer: " + (rep or "")[:300],
                      {"mode": "xslt", "line": line})
+
+    # ---------------------------------------------------------------- 5b. structural stream: every XSLT element under every parent
+    good_href = "file://" + os.path.join(work, "c03_import", "good.xsl")
+    smatrix = c03_gen.structural_matrix(good_href)
+    smatrix += c03_gen.structural_matrix(good_href, version="2.0", variants=c03_gen.ATTR_VARIANTS if ctx.thorough else ("good", "missing"))
+    smatrix += c03_gen.structural_pairs(r, 400 if not ctx.thorough else 6000, good_href)
+    slines = ["%s %s %s" % ("xf" if (k % 5) else ("xc" if (k % 10) else "ca"), hx(st), hx(c03_gen.STRUCT_SOURCE)) for k, (_, st) in enumerate(smatrix)]
+    sres, sextras = run_parallel(runner, "xslt", slines, nproc, "struct")
+    sobs, sobs_k = [], []
+    for k, ((skey, st), (rep, prob), line) in enumerate(zip(smatrix, sres, slines)):
+        if prob:
+            ctx.case(nontrivial_key="struct " + skey, cls="struct:" + prob["kind"])
+            cl = classify(prob["kind"], st.encode("utf-8"), b"", [], prob["detail"])
+            ctx.fail("struct.%s[%s]: %s" % (prob["kind"], cl if cl != "unclassified" else skey.split(":")[0], skey),
+                     "%s for child/parent %s: %s" % (prob["kind"], skey, prob["detail"]), {"mode": "xslt", "line": line})
+            continue
+        d = parse_reply(rep or "")
+        rc = int(d.get("rc", "-99"))
+        ctx.case(nontrivial_key="struct " + skey, cls="struct:rc=%d" % rc, sample=st[:400] if k == 1234 else None)
+        if d.get("esc", "none") != "none":
+            ctx.fail("struct.escapes[%s]: %s" % (d["esc"], skey), "exception %s left the entry point" % d["esc"], {"mode": "xslt", "line": line})
+            continue
+        if d.get("fu") != "1":
+            ctx.fail("struct.unusable-after: " + skey, "follow-up known-good transformation failed after: " + (rep or "")[:300], {"mode": "xslt", "line": line})
+        if rc == 0 and int(d.get("msg", "0")) != 0:
+            ctx.fail("struct.stale-message-after-success: " + skey, "a successful call leaves getLastError() non-empty: " + (rep or "")[:200], {"mode": "xslt", "line": line})
+        if rc in (7777, 7778, 7779):
+            ctx.fail("struct.prebuilt-misbehaves[%d]: %s" % (rc, skey), "compiled stylesheet / parsed source not reusable or not destroyable: " + (rep or "")[:200], {"mode": "xslt", "line": line})
+        else:
+            sobs.append("obs doTransform %d %s" % (rc, d.get("msg", "0")))
+            sobs_k.append(k)
+    if sobs:
+        for o, v, k in zip(sobs, model_lines(model, sobs, work, "sobs"), sobs_k):
+            if v != "ok":
+                ctx.fail("struct.bad-report: %s %s" % (smatrix[k][0], o), "entry point returned %s: a status no handler produces, or a non-zero status with an empty message" % o,
+                         {"mode": "xslt", "line": slines[k]})
+    for pr in sextras:
+        a, b = pr["range"]
+        if pr["kind"] == "leak" and "xalanc" not in pr["detail"] and "Xalan" not in pr["detail"]:
+            ctx.extra.setdefault("external_leaks", []).append(pr["detail"][:300])
+            continue
+        culprit = bisect_report(runner, "xslt", slines[a:b])
+        if culprit is not None:
+            k = a + culprit
+            ctx.fail("struct.%s[%s]: %s" % (pr["kind"], smatrix[k][0].split(":")[0], smatrix[k][0]), "%s: %s" % (pr["kind"], pr["detail"]), {"mode": "xslt", "line": slines[k]})
+        else:
+            ctx.oblige("harness batch exits cleanly (structural stream, lines %d..%d)" % (a, b), "correspondence", False, pr["detail"])
+    ctx.extra["structural_matrix"] = {"parents": len(c03_gen.STRUCT_PARENTS), "children": len(c03_gen.XSLT_ELEMENTS), "cases": len(smatrix)}
+
+    # ---------------------------------------------------------------- 5c. error paths must not leak; reference cycles of length 1..5
+    moddir = os.path.join(work, "c03_modules")
+    ecases = c03_gen.error_path_cases(moddir) + c03_gen.cycle_cases(moddir)
+    for (how, err, depth) in [(h, e, d) for h in ("import", "include") for e in ("cycle",) for d in (1, 2, 3)]:
+        url = "file://" + os.path.join(moddir, "cycle_%s_%d_1.xsl" % (how, depth))
+        ecases.append(("cycle:module-%s:%d" % (how, depth), c03_gen.sty("<xsl:template match='/'><o/></xsl:template>", top="<xsl:%s href='%s'/>" % (how, url)), "<r/>", "error"))
+    # every case on a transformer of its own over a counting memory manager (`lk`): outstanding blocks after its destruction must be 0;
+    # the error / cycle cases also through the shared transformer (`xf`, `xc`) for the usual oracle
+    elines, emeta = [], []
+    for key, st, src, expect in ecases:
+        elines.append("lk %s %s" % (hx(st), hx(src)))
+        emeta.append((key, st, expect, "lk"))
+        elines.append("%s %s %s" % ("xf" if len(elines) % 4 else "xc", hx(st), hx(src)))
+        emeta.append((key, st, expect, "xf"))
+    eres, eextras = run_parallel(runner, "xslt", elines, nproc, "errpath")
+    for (key, st, expect, via), (rep, prob), line in zip(emeta, eres, elines):
+        fam = key.split(":")[0] + ":" + key.split(":")[1]
+        if prob:
+            ctx.case(nontrivial_key="errpath %s %s" % (via, key), cls="errpath:" + prob["kind"])
+            cl = classify(prob["kind"], st.encode("utf-8"), b"", [], prob["detail"])
+            ctx.fail("errpath.%s[%s]: %s" % (prob["kind"], cl if cl != "unclassified" else fam, key), "%s on %s: %s" % (prob["kind"], key, prob["detail"]), {"mode": "xslt", "line": line})
+            continue
+        d = parse_reply(rep or "")
+        rc = int(d.get("rc", "-99"))
+        ctx.case(nontrivial_key="errpath %s %s" % (via, key), cls="errpath:%s:rc=%d" % (key.split(":")[0], rc))
+        if d.get("esc", "none") != "none":
+            ctx.fail("errpath.escapes[%s]: %s" % (d["esc"], key), "exception %s left the entry point" % d["esc"], {"mode": "xslt", "line": line})
+            continue
+        if d.get("fu") != "1":
+            ctx.fail("errpath.unusable-after: " + key, "follow-up known-good transformation failed after: " + (rep or "")[:300], {"mode": "xslt", "line": line})
+        if rc != 0 and int(d.get("msg", "0")) == 0:
+            ctx.fail("errpath.empty-message: " + key, "non-zero status with an empty message: " + (rep or "")[:300], {"mode": "xslt", "line": line})
+        if via == "lk" and d.get("live", "0") != "0":
+            ctx.fail("errpath.leak[%s]: %s live=%s" % (fam, key, d.get("live")),
+                     "%s memory blocks of the transformer's memory manager are still outstanding after the transformer was destroyed (%s, status %d)" % (d.get("live"), key, rc),
+                     {"mode": "xslt", "line": line})
+        if expect == "error" and rc == 0:
+            ctx.fail("errpath.cycle-or-error-not-reported: " + key, "a stylesheet that cannot be compiled / a reference cycle must end in a reported error, got status 0: " + (rep or "")[:200],
+                     {"mode": "xslt", "line": line})
+        elif expect not in ("error", "ok", "any") and via == "xf" and line.startswith("xf "):
+            out = bytes.fromhex(d["out"]).decode("utf-8", "replace") if d.get("out", "-") != "-" else ""
+            if rc != 0 or out != expect:
+                ctx.fail("errpath.wrong-result: " + key, "a terminating chain / bounded mutual recursion must produce %r: %s" % (expect, (rep or "")[:300]), {"mode": "xslt", "line": line})
+        elif expect == "ok" and rc != 0:
+            ctx.fail("errpath.wrong-result: " + key, "a valid module chain was rejected: " + (rep or "")[:300], {"mode": "xslt", "line": line})
+    for pr in eextras:
+        a, b = pr["range"]
+        if pr["kind"] == "leak" and "xalanc" not in pr["detail"] and "Xalan" not in pr["detail"]:
+            ctx.extra.setdefault("external_leaks", []).append(pr["detail"][:300])
+            continue
+        culprit = bisect_report(runner, "xslt", elines[a:b])
+        if culprit is not None:
+            k = a + culprit
+            ctx.fail("errpath.%s[%s]: %s" % (pr["kind"], emeta[k][0].split(":")[0] + ":" + emeta[k][0].split(":")[1], emeta[k][0]), "%s: %s" % (pr["kind"], pr["detail"]), {"mode": "xslt", "line": elines[k]})
+        else:
+            ctx.oblige("harness batch exits cleanly (error-path stream, lines %d..%d)" % (a, b), "correspondence", False, pr["detail"])
 
     # sources / stylesheets named by system id or URL (file, directory, unreachable host, malformed URL) instead of a stream
     for u in ["nonexistent-file.xml", "/", ".", "http://localhost:1/x.xml", "ftp://x/y", "file:///nonexistent", "http://[bad", "bogus://x", "a b c",
